@@ -53,6 +53,7 @@ class Server:
         self.M = None
         self.u = None
         self.HAMK = None
+        self.verified = False
 
     def _digest(self, data):
         return self.hashfunc(data).digest()
@@ -91,6 +92,7 @@ class Server:
         return self._digest(hGroup + hU + self.s + self.Ab + self.Bb + self.Kb)
 
     def set_A(self, bytes_A):
+        self.verified = False
         self.A = bytes_to_long(bytes_A)
         self.Ab = bytes_A
         self.S = self._derive_premaster_secret()
@@ -109,7 +111,12 @@ class Server:
         return (self.s, self.B)
 
     def verify(self, M):
-        return self.HAMK if self.M == M else None
+        # A == 0 (mod N) forces the premaster secret to 0 whatever the password
+        # is, so the proof could be computed without it (RFC 5054, 2.5.4).
+        self.verified = (
+            self.A is not None and self.A % self.N != 0 and self.M == M
+        )
+        return self.HAMK if self.verified else None
 
     def get_session_key(self):
         return self.K
